@@ -21,3 +21,14 @@ Example C04_src_nonvacuous : src_checkthread_wants_check_recognised = true ->
   src_checkthread_wants_check true false true true false false false true false = (true, false) /\
   src_checkthread_wants_check false true true false true true false true false = (false, true).
 Proof. intro H; xl_rec H. all: repeat split; vm_compute; reflexivity. Qed.
+
+(* Checkable::UpdateNextCheck, with C++ double read as exact arithmetic in Q (the model's assumption: no rounding; fmod and std::min
+   are the model's sch_qfmod / sch_qmin): the instant handed to SetNextCheck is sch_update_next_check for the interval sch_interval picks *)
+From Coq Require Import QArith.
+From Icv Require Import Sched.SchNext.
+Theorem C04_src_update_next_check : src_checkable_update_next_check_recognised = true ->
+  forall (soft has_cr : bool) (ci ri now : Q) (offset : Z),
+    exists q, src_checkable_update_next_check soft has_cr ci ri now offset = [q] /\
+              (q == sch_update_next_check now (sch_interval soft has_cr ci ri) offset)%Q.
+Proof. exact src_checkable_update_next_check_eq. Qed.
+Print Assumptions C04_src_update_next_check.
